@@ -118,7 +118,8 @@ CHECKS = {
              "earlier encodings in the diagram store, an earlier legaliser model, earlier default-argument calls) and from the "
              "import-time state (replays compute the reference in a really fresh interpreter; state probes run every path in a forked process); z3 proves the observables equal. Margin mode: any difference is a violation. Band mode (no "
              "separation margin): the tolerance-caused difference is the recorded known finding, and the companion obligation "
-             "'same result when the tolerances are forced equal' must still be proved.",
+             "'same result when the tolerances are forced equal' must still be proved. The structure of a legaliser model built "
+             "after a history is compared with the structure computed in a really fresh interpreter.",
         note="history length one (inductive step), probes at the quick bounds of their own properties; state changed other than "
              "through FRAME's API is outside.",
         design="5/C20"),
@@ -129,7 +130,8 @@ CHECKS = {
              "overlap>0 (or always with include-zero), full ownership of fixed cells by their module and absence elsewhere, and "
              "allocated area = shape area on refinable cells. A second family allocates, moves the modules in place by a symbolic "
              "displacement (centre update / recenter_rectangles, as the placement tools do) and allocates again: the same obligations "
-             "must hold for the moved design.",
+             "must hold for the moved design. A binary64 kernel (QF_FP, z3 + cvc5) runs the real Rectangle.area_overlap / area on "
+             "FloatingPoint terms and proves overlap <= area of either operand, hence an occupancy ratio <= 1.",
         note="concrete 12x4 dies with <=1 region (also refined), one symbolic module at a time, plus symbolic-die cases with a "
              "concrete module; one axis symbolic; terminals and self-overlapping modules outside.",
         design="5/C03"),
@@ -145,8 +147,10 @@ CHECKS = {
     'C05': dict(
         text="Same documents as C04: z3 proves every derived quantity equals its definition on the source document (areas, "
              "per-region areas, area-weighted centroids cross-multiplied, rectangle lists, fixed rectangles, wire length with "
-             "sqrt side conditions), and for 16 defect classes injected at every applicable position that every path of the loader "
-             "raises (an accepting path is a counterexample, replayed through the YAML text).",
+             "sqrt side conditions), and for 20 defect classes injected at every applicable position that every path of the loader "
+             "raises (an accepting path is a counterexample, replayed through the YAML text); the overlap defect is also run at scales "
+             "1 .. 1e-6 with the design's own tolerances (accepting paths below the library's area tolerance at scales <= 1e-4 are the "
+             "recorded known finding, above it a violation).",
         note="bounds as C04; overlapping hard rectangles overlap by a clear margin; sub-tolerance overlaps outside.",
         design="5/C05"),
     'C13': dict(
@@ -157,7 +161,8 @@ CHECKS = {
              "arbitrary cost values for the 12 spring constants (2048 paths): the final layout uses the first spring constant "
              "attaining the smallest cost, on the original die; a second family moves the candidates' centres to symbolic positions and "
              "reads the REAL Netlist.wire_length (with and without a read of the input's wire length before the relocation): the "
-             "chosen layout must minimise overlap + half the wire length as defined. A binary64 kernel (QF_FP) proves the centre of a fixed module is "
+             "chosen layout must minimise overlap + half the wire length as defined; a third runs the REAL total_intersection_area on "
+             "concentric discs with symbolic areas, alone and after a history on a design with the same module names. A binary64 kernel (QF_FP) proves the centre of a fixed module is "
              "bit-for-bit unchanged.",
         note="2 modules (3 in the thorough tier), one axis of the die symbolic; uninterpreted mul/div/sqrt over-approximate the "
              "path set; finiteness of the centres and more than one unrolled iteration are not decided.",
@@ -170,7 +175,8 @@ CHECKS = {
              "coordinates of movable nodes are within size/2 - radius and fixed nodes keep their coordinate, for one more iteration "
              "from any state; (wrap-up) the real Spectral.spectral_layout for 0..3 trials: disc of every movable module inside the "
              "die, fixed modules untouched, hard modules translated rigidly, areas unchanged and nets equal to the input document "
-             "(2-, 3- and 4-pin nets, symbolic weight).",
+             "(2-, 3- and 4-pin nets, symbolic weight); one wrap-up case adds movable terminals (a bare point and a pad with a footprint, "
+             "whose centre must stay on its footprint).",
         note="n<=3 (4) entries, 3 nodes, 5 modules; convergence, the iteration cap, entries below 1e-9 before scaling and RNG "
              "internals are outside.",
         design="5/C14"),
@@ -232,7 +238,7 @@ def main():
                                      "obligations discharged by z3 / cvc5; counterexamples replayed on the unshimmed code")],
         checks=checks,
         not_applicable=na,
-        notes="All results are bounded; see DESIGN.md. Exit codes: 0 pass, 1 VIOLATION (replayed on real code), 2 harness error/inconclusive.",
+        notes="All results are bounded; see DESIGN.md. Exit codes: 0 pass, 1 VIOLATION (replayed on real code), 2 harness error/inconclusive. Recorded findings: known_findings.json (open: C20-tolerance-history, C17-overflow-huge-radii, C05-area-tolerance-small-scale - each prints a KNOWN-FINDING line and is classified narrowly; 'fixed' lists the repaired defects with their /repo commits). Seeded changes used to test the checks: seeded/ (8 rounds, 87 changes; DESIGN.md 9.5).",
     )
     json.dump(m, open(os.path.join(ROOT, 'MANIFEST.json'), 'w'), indent=1)
 
